@@ -66,6 +66,14 @@ func genLimitsGiant(t *rapid.T) limits {
 	return genLimits(t)
 }
 
+// bigCase draws whether this case is one of the occasional large ones (quick 1 in 40, thorough 1 in 8).
+func bigCase(t *rapid.T) bool {
+	if thorough() {
+		return rapid.IntRange(0, 7).Draw(t, "big") == 0
+	}
+	return rapid.IntRange(0, 39).Draw(t, "big") == 0
+}
+
 var rowsChoices = []int{0, 1, 2, 3, 4, 5, 6, 8, 16, 31, 32, 33, 62, 63}
 
 func genRows(t *rapid.T, label string) int {
